@@ -154,7 +154,34 @@ def gen(tier, rng):
     return obs, facts
 
 
-FLOOR = {"quick": dict(eq=2000, facts=100), "thorough": dict(eq=20000, facts=400)}
+FLOOR = {"quick": dict(eq=2000, facts=100, limb=18), "thorough": dict(eq=20000, facts=400, limb=36)}
+
+
+def limb_plan(tier):
+    """the six comparison operators on scaled_integer over MULTI-LIMB reps (same exponent), for all limb values (limb algebra,
+    DESIGN 2.5b): the result is the truth value of the comparison of the signed values of the reps"""
+    from vlib import limbalg as la
+    reps = [("cnl::wide_integer<200, int>", 224, 32, True), ("cnl::wide_integer<129, std::uint64_t>", 192, 64, False), ("cnl::wide_integer<255, std::int64_t>", 256, 64, True)]
+    if tier != "quick":
+        reps += [("cnl::wide_integer<300, unsigned>", 320, 32, False), ("cnl::wide_integer<140, std::int16_t>", 144, 16, True), ("cnl::wide_integer<500, std::uint64_t>", 512, 64, False)]
+    src, plan, k = tc.PRELUDE["clang"], [], 0
+    for (R, W, L, sg) in reps:
+        A = "cnl::scaled_integer<%s, cnl::power<-7>>" % R
+
+        def val(cx, x, W=W, sg=sg):
+            return la.sval(cx, x, W) if sg else x
+        for nm, sym, spec in (("lt", "<", lambda cx, v, RW, val=val: la.LT(cx, val(cx, v[0]), val(cx, v[1]))),
+                              ("gt", ">", lambda cx, v, RW, val=val: la.LT(cx, val(cx, v[1]), val(cx, v[0]))),
+                              ("le", "<=", lambda cx, v, RW, val=val: la.padd(la.const(1), la.LT(cx, val(cx, v[1]), val(cx, v[0])), -1)),
+                              ("ge", ">=", lambda cx, v, RW, val=val: la.padd(la.const(1), la.LT(cx, val(cx, v[0]), val(cx, v[1])), -1)),
+                              ("eq", "==", lambda cx, v, RW: la.padd(la.const(1), la.Z(cx, la.padd(v[0], v[1], -1)), -1)),
+                              ("ne", "!=", lambda cx, v, RW: la.Z(cx, la.padd(v[0], v[1], -1)))):
+            f = "qk%d" % k
+            k += 1
+            src += 'extern "C" bool %s(%s a, %s b) { return a %s b; }\n' % (f, A, A, sym)
+            plan.append(("limb/%s/%s" % (nm, R.replace("cnl::", "").replace("std::", "")), "scaled_integer<%s, power<-7>> %s scaled_integer<..>" % (R.replace("cnl::", ""), sym),
+                         f, [("a", W, L), ("b", W, L)], 8, spec))
+    return src, plan
 
 
 def run(tier, seed, work):
@@ -170,8 +197,11 @@ def run(tier, seed, work):
     nf = common.settle_facts(r, facts)
     common.floor_check(r, "kernel pairs proved", n["proved"], FLOOR[tier]["eq"])
     common.floor_check(r, "type facts proved", nf["proved"], FLOOR[tier]["facts"])
+    lsrc, lplan = limb_plan(tier)
+    lcnt = common.limb_block(r, work, "c03limb", lsrc, lplan, seed, FLOOR[tier]["limb"], "multi-limb comparison obligations proved")
     good = [o for o in obs if o.status == "proved"]
     r.coverage = {
+        "multi_limb_obligations": len(lplan), "multi_limb_proved": lcnt["proved"], "multi_limb_refuted": lcnt["refuted"], "multi_limb_undecided": lcnt["undecided"],
         "programs": len(obs), "disagreements_checked": n["refuted"], "kernel_pairs_proved": n["proved"], "rejected_by_library": n["rejected"],
         "type_facts": len(facts), "type_facts_proved": nf["proved"],
         "rule": "each of the six comparison operators separately: CNL comparison kernel == reference comparison (aligned built-in for built-in reps; by value in a wide type for elastic/wide) as IR normal forms",
